@@ -6,14 +6,21 @@ use itertools::Itertools;
 use std::collections::HashMap;
 use std::path::PathBuf;
 
+/// The widest listing row that can be configured
+const MAX_BYTES_PER_LINE: usize = 256;
+
 pub fn to_listing(
     ctx: &CodegenContext,
     num_bytes_per_line: usize,
 ) -> CoreResult<HashMap<PathBuf, String>> {
-    if num_bytes_per_line == 0 {
-        // (`chunks(0)` below would panic, after the binary was written already)
+    if !(1..=MAX_BYTES_PER_LINE).contains(&num_bytes_per_line) {
+        // (`chunks(0)` below would panic, and so would a column wider than the formatting machinery supports, after
+        // the binary was written already)
         return Err(Diagnostic::error()
-            .with_message("listing.num-bytes-per-line must be at least 1")
+            .with_message(format!(
+                "listing.num-bytes-per-line must lie between 1 and {}",
+                MAX_BYTES_PER_LINE
+            ))
             .into());
     }
 
